@@ -332,6 +332,10 @@ func TestVerifC11(t *testing.T) {
 			got, herr := vC11Inproc(h, wireBytes)
 			if herr != nil {
 				rep.Count("handle_returned_error", 1)
+				if c.Advertised {
+					rep.Count("handle_returned_error_on_advertised", 1)
+					vC11Note(rep, c, "handle-error-on-advertised")
+				}
 			}
 			if got.Panic != "" {
 				panicked[id] = true
